@@ -100,7 +100,8 @@ def make_env(env_name, nn_=4):
     return CVRPEnv(generator_params={"num_loc": nn_ - 1, "vehicle_capacity": CVRP_CAP / CAP_UNIT})
 
 
-# ---- the problem definitions in Python (used to BUILD the catalogue; TLC re-checks every entry with spec/env/*.tla) ----
+# ---- the problem definitions in Python (used to BUILD the catalogue; every entry that is played is re-scored by TLC with
+# ---- spec/env/TSP.tla / CVRP.tla when the recorded run is validated against SearchTrace.tla: M_RollScore) ----
 def objective(env_name, inst, seq):
     D = inst["D"]
     path = list(seq) if env_name == "tsp" else [0] + list(seq)
@@ -553,8 +554,8 @@ CONFIGS = {
     # env, method (model), cls (real class), n, B, A, R, max_iters, C, DevSlots
     "quick": [
         dict(env="tsp", method="AS", cls="AS", n=2, B=1, A=2, R=1, max_iters=2, C=2, dev="{1, 8}"),
-        dict(env="cvrp", method="AS", cls="AS", n=3, B=1, A=2, R=1, max_iters=2, C=2, dev="{1, 6}"),
-        dict(env="tsp", method="EAS", cls="EASEmb", n=3, B=2, A=2, R=1, max_iters=2, C=2, dev="{1, 10}"),
+        dict(env="cvrp", method="AS", cls="AS", n=2, B=1, A=2, R=1, max_iters=2, C=2, dev="{1, 6}"),
+        dict(env="tsp", method="EAS", cls="EASEmb", n=3, B=2, A=2, R=1, max_iters=2, C=2, dev="{1, 10}", stops="{2}"),
         dict(env="cvrp", method="EAS", cls="EASLay", n=4, B=2, A=2, R=1, max_iters=2, C=2, dev="{3, 8}", focus="{1}"),
     ],
     "thorough": [
@@ -700,6 +701,10 @@ def compare_run(world, cd, table, key, events):
                     continue                      # another maximiser of the same instance (ties of the arg-max)
                 return notes + [(j, "C15", "stored-solution-is-a-rollout-of-its-instance",
                          "best_solutions[%d] = %s for reward %s, specification %s" % (b, row, o["maxRew"][b], srow))]
+        if act[0] == "end" and (o["rshape"] != [cd["n"]] or o["sshape"] != [cd["n"], world.W]):
+            return notes + [(j, "C12", "final-buffers-one-row-per-instance",
+                     "instance_rewards has shape %s, instance_solutions %s: expected [%d] and [%d, %d] (row i = instance i)"
+                     % (o["rshape"], o["sshape"], cd["n"], cd["n"], world.W))]
         prev_iter = o if act[0] == "iter" else None
         if act[0] in ("setup", "bend", "end"):
             if o["instRew"] != spec["instRew"]:
@@ -712,10 +717,6 @@ def compare_run(world, cd, table, key, events):
                              "instance_solutions[%d] = %s, specification %s" % (i, row, srow))]
             if len(o["instSol"]) != len(spec["instSol"]):
                 return notes + [(j, "C12", "batch-results-at-own-rows", "%d solution rows, specification %d" % (len(o["instSol"]), len(spec["instSol"])))]
-        if act[0] == "end" and (o["rshape"] != [cd["n"]] or o["sshape"] != [cd["n"], world.W]):
-            return notes + [(j, "C12", "final-buffers-one-row-per-instance",
-                     "instance_rewards has shape %s, instance_solutions %s: expected [%d] and [%d, %d] (row i = instance i)"
-                     % (o["rshape"], o["sshape"], cd["n"], cd["n"], world.W))]
         if o.get("ver", spec["ver"]) != spec["ver"] and not notes:
             notes.append((j, None, "optimiser-steps", "optimiser steps applied to the live parameters: %s, specification %s" % (o.get("ver"), spec["ver"])))
     return notes
@@ -768,7 +769,7 @@ def mkviol(prop, clause, prefix, rec, upto, detail):
 # ----------------------------------------------------------------------------------------------------------------
 FSCALE = 1000000
 RUN_LIMIT_S = 30     # one replayed run takes ~0.1 s
-FIT_LIMIT_S = 120    # one RL4COTrainer.fit run takes ~1 s
+FIT_LIMIT_S = 60     # one RL4COTrainer.fit run takes ~1 s
 FEPS = 40            # 4e-5: float32 tour lengths against float64 sums of 1e-6-rounded distances
 
 
@@ -991,7 +992,7 @@ def fit_task(args):
     logging.disable(logging.WARNING)
     torch.set_num_threads(2)
     out = {"viol": [], "drift": [], "samples": [], "states": 0, "traces": 0, "rollouts": 0}
-    fit_recs, t1 = [], time.time()
+    fit_recs, t1, n_hang = [], time.time(), 0
     for k, p in enumerate(plans):
         env_name, cls, n, B, A, iters, mrt = p[:7]
         note = dict({"n": n, "batch_size": B, "augment_size": A, "max_iters": iters, "max_runtime": mrt,
@@ -1001,6 +1002,9 @@ def fit_task(args):
                 fit_recs.append(fit_run(env_name, cls, n, B, A, iters, seed=seed * 1009 + k, max_runtime=mrt, **(p[7] if len(p) > 7 else {})))
         except RunTimeout as ex:
             out["viol"].append(hang(cls, env_name, note, [["RL4COTrainer.fit"]], ex))
+            n_hang += 1
+            if n_hang >= 2:
+                break
         except Exception as ex:  # noqa: BLE001
             out["viol"].append(raised(ex, cls, env_name, dict({"n": n, "batch_size": B, "augment_size": A, "max_iters": iters, "max_runtime": mrt,
                                                                 "note": "RL4COTrainer.fit, AttentionModelPolicy"}, **(p[7] if len(p) > 7 else {})),
